@@ -93,7 +93,16 @@ impl SegmentBlock {
     }
 
     pub fn read_record(&self, start_offset: u64) -> Result<Option<Record>, ReadError> {
-        let offset = (start_offset - self.offset) as usize;
+        let Some(offset) = start_offset.checked_sub(self.offset) else {
+            // The record lies before this block (a reverse scan moved below it)
+            return Err(seglog::read::ReadError::OutOfBounds {
+                offset: start_offset,
+                length: 0,
+                flushed_offset: self.offset,
+            }
+            .into());
+        };
+        let offset = offset as usize;
         let ([confirmation_count_byte], bytes, record_len) =
             seglog::parse::parse_record::<CONFIRMATION_HEADER_SIZE>(&self.block, offset)?;
 
